@@ -41,14 +41,39 @@ class _Gen(OpGen):
 
 def plan(tier, seed):
     # + the repository's own test-suite, unedited, as one more workload under the same monitor
-    return [common.pytest_spec()] + common.session_plan(PROP, tier, seed, quick=7200, thorough=80000)
+    # + the recorded finding's history (known_findings.json), re-observed on every run
+    return [common.pytest_spec(), {"kind": "finding-probe", "seed": 0}] + \
+        common.session_plan(PROP, tier, seed, quick=7200, thorough=80000)
 
 
 def run_shard(spec):
     if spec.get("kind") == "pytest":
         return common.run_pytest_shard(spec, PROP)
+    if spec.get("kind") == "finding-probe":
+        return finding_probe()
     return common.run_sessions(spec, PROP, make_monitors, cfg_fn, nsteps=(15, 35),
                                weights=WEIGHTS, refusal_rate=2.5, history_share=0.25, opgen=_Gen)
+
+
+def finding_probe():
+    """Replays the committed history of the recorded finding under the same monitor, so
+    that the KNOWN-FINDING line is backed by an observation of this run (and disappears by
+    itself once the library no longer shows it)."""
+    import json
+
+    from .. import env
+
+    acc = common.new_acc()
+    doc = json.load(open(env.VERIF / "findings" / "C11-stale-lineage-rollback.replay.json"))
+    vs = common.replay_sessions(doc, make_monitors)
+    acc["evaluations"] += 1
+    acc["counters"]["finding-probe-runs"] = 1
+    for v in vs[:1]:
+        v = dict(v)
+        v["replay"] = doc
+        acc["violations"].append(v)
+        acc["counters"]["finding-probe-observed"] = 1
+    return common.finish_acc(acc)
 
 
 def floors(tier):
